@@ -574,6 +574,22 @@ fn directed(ctx: &WorkerCtx) -> Result<(), Fail> {
             st.class("directed: en-passant marker with a check from another piece (accepted, not reachable)");
         }
     }
+    if ctx.idx == 4 % ctx.n {
+        // over-full side (17..31 pieces of one colour, total <= 32): the move list has room for
+        // 18 entries only, so such a text must be refused - or, if a change makes the parser
+        // accept it, everything that follows must still be safe (seeded change C07-11)
+        for fen in [
+            "4k3/8/8/8/PPPPPPPP/8/NNNNNNNN/R3K2R w - - 0 1",
+            "4k3/8/8/8/PPPPPPPP/NNNNNNNN/8/R3K2R w KQ - 0 1",
+            "4k3/8/8/8/PPPPPPPP/8/NNNNNN2/R3K2R w - - 0 1",
+            "4k3/pppppppp/8/8/PPPPPPPP/8/NNNNNNNN/R3K2R w - - 0 1",
+            "4k3/8/8/PPPPPPPP/PPPPPPPP/8/NNNNNNNN/R3K2R w - - 0 1",
+        ] {
+            for text in [fen.to_string(), Pos::from_fen(fen).map(|p| p.mirror().fen()).unwrap_or_default()] {
+                run("over-full side (17-31 pieces of one colour)", Script { ops: vec![Op7::Construct(Cons::Text(text)), full_iter.clone(), Op7::Perft3, Op7::Search(60, false), Op7::Query, Op7::Format] }, &mut st)?;
+            }
+        }
+    }
     if ctx.idx == 3 % ctx.n {
         // long reversible shuffle from clock 9990: clocks pass 9999 and keep counting
         let mut ops = vec![Op7::Construct(Cons::Root(Root::Fen("4k3/8/8/8/8/8/8/4K2R w - - 9990 9990".into()), 9990, 9990))];
